@@ -13,9 +13,24 @@ reactivex.from_marbles on a TestScheduler, and testing.marbles cold()/hot(); the
 (Ops/Marbles.v + the int()/float() reading of Ops/MarbleNumbers.v, PrimFloat for float
 arithmetic) must reproduce times bit-exactly, values, and the ValueError kind.
 Oracle: an independent direct Python reading of the documented syntax (no regex):
-positions counted by hand on the space-free text."""
+positions counted by hand on the space-free text.
+
+Oracle-only families (no Coq counterpart):
+* timedelta: parse(s, timedelta(seconds=ts), timedelta(seconds=shift)) must equal parse(s, ts, shift) (either or
+  both arguments as timedelta; also multi-day timespans and negative shifts); from_marbles / cold with a timedelta
+  timespan deliver like the float one;
+* public reactivex.cold / reactivex.from_marbles called directly on a TestScheduler (scheduler given to the factory
+  or to subscribe()), ONE observable subscribed at two instants (overlapping or not): each subscription receives the
+  parsed messages shifted by its own subscription time;
+* public reactivex.hot called directly on a TestScheduler with duetime as float / int / timedelta / datetime / default,
+  several observers subscribing before / in the middle of / after the diagram, one disposing mid-diagram, one
+  disposing itself from inside its k-th on_next: every observer receives exactly the parsed messages due while it was
+  subscribed (a message due AT its subscription or disposal instant may or may not arrive; a late subscriber may or
+  may not be told the terminal)."""
+import datetime as dt
 import json
 import math
+import random
 
 import lib
 
@@ -34,6 +49,20 @@ Definition out_eqb (a b : perr + list (pytime * notif pyval)) : bool := supporte
 """
 
 ERR = RuntimeError("marble-error")
+# lookup targets include FALSY values (0, 0.0, "", None, [], {}): a lookup hit must win even then (C08)
+TARGETS = [object(), object(), "mapped", 99, 2.5, 0, 0.0, "", None, [], {}]
+
+
+def lk_json(lookup):
+    return [[k, next(i for i, t in enumerate(TARGETS) if t is v)] for k, v in lookup.items()]
+
+
+def lk_py(j):
+    return {k: TARGETS[i] for k, i in j}
+
+
+def td(x):
+    return dt.timedelta(seconds=x)
 
 
 # --------------------------------------------------------------------------
@@ -333,17 +362,203 @@ def jmsgs(ms):
 
 
 # --------------------------------------------------------------------------
+# oracle-only families; each takes a JSON-able dict (the replay dict) and returns None or what is wrong
+# --------------------------------------------------------------------------
+
+def fmsgs(ms):
+    return [(float(t), k, v) for t, k, v in ms]
+
+
+def fam_timedelta_parse(d):
+    """parse with timedelta arguments == parse with the same number of seconds"""
+    lookup = lk_py(d["lookup"])
+    ts, shift, how = d["timespan"], d["time_shift"], d["how"]
+    base, _ = run_parse(d["string"], float(ts), float(shift), lookup, d["raise_stopped"])
+    a = td(ts) if how in ("both", "timespan") else ts
+    b = td(shift) if how in ("both", "time_shift") else shift
+    got, problems = run_parse(d["string"], a, b, lookup, d["raise_stopped"])
+    if problems:
+        return problems[0]
+    if base[0] == "err" or got[0] == "err":
+        return None if base == got else f"with timedelta arguments: {got}, with seconds: {base}"
+    if not same_msgs(fmsgs(got[1]), fmsgs(base[1])):
+        return (f"parse(timespan={a!r}, time_shift={b!r}) = {jmsgs(got[1])}, with the same seconds as numbers "
+                f"{jmsgs(base[1])}")
+    return None
+
+
+def recorder(S, rec, problems):
+    from reactivex.observer import Observer
+
+    def on_error(e):
+        if e is not ERR:
+            problems.append(f"on_error carries {e!r}, not the error passed in")
+        rec.append((float(S.clock), "E", None))
+    return Observer(lambda v: rec.append((float(S.clock), "N", v)), on_error, lambda: rec.append((float(S.clock), "C", None)))
+
+
+def fam_cold(d):
+    """public reactivex.cold / from_marbles on a TestScheduler; one observable, two subscriptions"""
+    import reactivex
+    from reactivex.testing import TestScheduler
+    lookup = lk_py(d["lookup"])
+    ts = d["timespan"]
+    tsv = td(ts) if d["timespan_as"] == "timedelta" else ts
+    S = TestScheduler()
+    kw = {"scheduler": S} if d["sched_via"] == "factory" else {}
+    pres, _ = run_parse(d["string"], float(ts), 0.0, lookup, True)
+    try:
+        obs = getattr(reactivex, d["api"])(d["string"], tsv, lookup=lookup, error=ERR, **kw)
+    except ValueError as e:
+        return None if pres == ("err", err_kind(e)) else f"{d['api']} raised {e!r}, parse says {pres}"
+    if pres[0] == "err":
+        return f"{d['api']} accepted a diagram that parse(raise_stopped=True) rejects: {pres}"
+    recs, problems = [[] for _ in d["subscribe_at"]], []
+    for i, t in enumerate(d["subscribe_at"]):
+        S.schedule_absolute(float(t), lambda *_, i=i: obs.subscribe(
+            recorder(S, recs[i], problems), scheduler=None if d["sched_via"] == "factory" else S))
+    S.start()
+    if problems:
+        return problems[0]
+    for i, t in enumerate(d["subscribe_at"]):
+        exp = [(float(t) + tm, k, v) for tm, k, v in pres[1]]
+        if not same_msgs(recs[i], exp):
+            return (f"subscription {i + 1} (at {t}) of one cold observable received {jmsgs(recs[i])}, parsed messages "
+                    f"shifted by its subscription time: {jmsgs(exp)}")
+    return None
+
+
+def window_check(got, msgs, sub, disp, who):
+    """got must be the parsed messages due while subscribed: sub < t < disp mandatory, t == sub / t == disp optional
+    (simultaneous events: order not specified), nothing else, in parsed order"""
+    i = 0
+    for m in msgs:
+        t = m[0]
+        inside = sub <= t and (disp is None or t <= disp)
+        if not inside:
+            continue
+        must = sub < t and (disp is None or t < disp)
+        if i < len(got) and same_msgs([got[i]], [m]):
+            i += 1
+        elif must:
+            return (f"{who} (subscribed at {sub}, disposed at {disp}) did not receive {jmsgs([m])[0]} -- it received "
+                    f"{jmsgs(got)}")
+    if i < len(got):
+        return (f"{who} (subscribed at {sub}, disposed at {disp}) received {jmsgs(got[i:i + 1])[0]}, which is not a parsed "
+                f"message due while it was subscribed (all it received: {jmsgs(got)})")
+    return None
+
+
+def fam_hot(d):
+    """public reactivex.hot on a TestScheduler, created at clock 0, several observers"""
+    import reactivex
+    from reactivex.testing import TestScheduler
+    lookup = lk_py(d["lookup"])
+    ts, due = d["timespan"], d["duetime"]
+    tsv = td(ts) if d["timespan_as"] == "timedelta" else ts
+    S = TestScheduler()
+    kw = {}
+    if d["duetime_as"] == "timedelta":
+        kw["duetime"] = td(due)
+    elif d["duetime_as"] == "datetime":
+        kw["duetime"] = S.now + td(due)
+    elif d["duetime_as"] != "default":
+        kw["duetime"] = due
+    else:
+        due = 0.0
+    pres, _ = run_parse(d["string"], float(ts), float(due), lookup, True)
+    try:
+        obs = reactivex.hot(d["string"], tsv, scheduler=S, lookup=lookup, error=ERR, **kw)
+    except ValueError as e:
+        return None if pres == ("err", err_kind(e)) else f"hot raised {e!r}, parse says {pres}"
+    if pres[0] == "err":
+        return f"hot accepted a diagram that parse(raise_stopped=True) rejects: {pres}"
+    msgs = fmsgs(pres[1])
+    n = len(d["observers"])
+    recs, problems, handles, self_disposed = [[] for _ in range(n)], [], [None] * n, [None] * n
+
+    def subscribe(i, o):
+        from reactivex.observer import Observer
+        inner = recorder(S, recs[i], problems)
+        k = o.get("dispose_in_on_next")
+        seen = [0]
+
+        def on_next(v):
+            inner.on_next(v)
+            seen[0] += 1
+            if k is not None and seen[0] == k:
+                self_disposed[i] = float(S.clock)
+                handles[i].dispose()
+        handles[i] = obs.subscribe(Observer(on_next, inner.on_error, inner.on_completed))
+
+    for i, o in enumerate(d["observers"]):
+        S.schedule_absolute(float(o["subscribe_at"]), lambda *_, i=i, o=o: subscribe(i, o))
+        if o.get("dispose_at") is not None:
+            S.schedule_absolute(float(o["dispose_at"]), lambda *_, i=i: handles[i] is not None and handles[i].dispose())
+    S.start()
+    if problems:
+        return problems[0]
+    term = next((m for m in msgs if m[1] in "EC"), None)
+    for i, o in enumerate(d["observers"]):
+        sub = float(o["subscribe_at"])
+        disp = o.get("dispose_at")
+        disp = float(disp) if disp is not None else None
+        if self_disposed[i] is not None and (disp is None or self_disposed[i] < disp):
+            disp = self_disposed[i]
+        got = recs[i]
+        if term is not None and sub > term[0] and len(got) == 1 and same_msgs([(term[0], got[0][1], got[0][2])], [term]):
+            continue            # a late subscriber told the terminal at once: neither demanded nor forbidden
+        v = window_check(got, msgs, sub, disp, f"observer {i + 1} of {n} of one hot observable")
+        if v:
+            return v
+    return None
+
+
+def fam_default_error(d):
+    """parse / from_marbles without `error`: '#' stands for Exception('error') (documented default)"""
+    from reactivex.observable.marbles import parse
+    try:
+        ms = parse(d["string"], timespan=d["timespan"], time_shift=d["time_shift"], lookup=lk_py(d["lookup"]))
+    except ValueError:
+        return None
+    for t, n in ms:
+        if n.kind == "E" and not (type(n.exception) is Exception and n.exception.args == ("error",)):
+            return f"'#' without an error argument carries {n.exception!r}, documented default Exception('error')"
+    return None
+
+
+FAMILIES = {"default-error": fam_default_error, "timedelta-parse": fam_timedelta_parse, "cold-direct": fam_cold, "hot-direct": fam_hot}
+
+
+def gen_hot_observers(rng, times):
+    """subscription / disposal instants around the parsed message times (all multiples of 0.25)"""
+    T = sorted(set(times)) or [1.0, 2.0]
+    def near(t):
+        return max(0.0, t + rng.choice([-0.25, 0.25, 0.25, 0.0]))
+    obs = [{"subscribe_at": rng.choice([0.0, near(T[0])])}]                       # (almost) from the start, never disposes
+    a = near(rng.choice(T))
+    obs.append({"subscribe_at": a})                                                # joins mid-diagram
+    b = near(rng.choice(T))
+    lo, hi = min(a, b), max(a, b)
+    obs.append({"subscribe_at": lo, "dispose_at": hi + rng.choice([0.0, 0.25, 0.5])})   # leaves mid-diagram
+    obs.append({"subscribe_at": T[-1] + rng.choice([0.25, 3.0]), "dispose_at": rng.choice([None, T[-1] + 5.0])})  # late
+    if rng.random() < 0.6:
+        obs.insert(rng.randrange(len(obs) + 1), {"subscribe_at": rng.choice([0.0, near(rng.choice(T))]),
+                                                 "dispose_in_on_next": rng.choice([1, 1, 2, 3])})
+    return obs
+
+
+# --------------------------------------------------------------------------
 
 def run(chk):
     proved = chk.build_and_prove()
     big = (not proved) or bool(chk.broken) or chk.tier == "thorough"
     rng = chk.rng
+    xr = random.Random(f"C38-extra-{chk.seed}")      # the oracle-only families draw from their own stream
     n_struct = 6000 if big else 900
     n_malf = 6000 if big else 900
     n_deliv = 1500 if big else 300
     objs = Objs()
-    # lookup targets include FALSY values (0, 0.0, "", None, [], {}): a lookup hit must win even then (C08)
-    TARGETS = [object(), object(), "mapped", 99, 2.5, 0, 0.0, "", None, [], {}]
     gal, meta = [], []
     hist = {"structured": 0, "malformed": 0, "delivery": 0, "raise_stopped": 0, "float_timespan": 0,
             "with_lookup": 0, "ValueError_comma": 0, "ValueError_stopped": 0, "with_spaces": 0,
@@ -361,6 +576,22 @@ def run(chk):
         ts = rng.choice([1, 2, 10, 1.0, 0.1, 0.5, 3.0, 0.3])
         shift = rng.choice([0, 200, 5, 0.0, 0.0, 0.25, 200.0, 1e-3])
         return ts, shift
+
+    def extra(family, d, size):
+        d = dict(d, family=family)
+        v = FAMILIES[family](d)
+        chk.cov["evaluations"] += 1
+        hist[family] = hist.get(family, 0) + 1
+        if v:
+            tag = next((t for k, t in (("did not receive", "a message due while subscribed is missing"),
+                                       ("which is not a parsed", "unexpected message"),
+                                       ("on_error carries", "error-object"),
+                                       ("documented default Exception", "default error object"),
+                                       ("with the same seconds as numbers", "timedelta differs from seconds"),
+                                       ("shifted by its subscription time", "subscription differs from parsed"))
+                        if k in v), v[:40])
+            chk.violation(f"{family}|{tag}", dict(d, what=v), size=size)
+        return v
 
     def check_parse(s, items, ts, shift, lookup, rs, origin):
         (res, problems) = run_parse(s, ts, shift, lookup, rs)
@@ -380,6 +611,14 @@ def run(chk):
                 "implementation": res if res[0] == "err" else jmsgs(res[1])}
         for p in problems:
             chk.violation(f"error-object|{origin}", dict(base, expected=p), size=size)
+        # ---- timedelta arguments (oracle only, metamorphic) -------------------------------
+        if xr.random() < 0.5:
+            ts2, shift2 = xr.choice([ts, ts, 172800.5, 90000]), xr.choice([shift, shift, -5, -0.25, 129600.0])
+            extra("timedelta-parse", {"string": s, "timespan": ts2, "time_shift": shift2, "raise_stopped": rs,
+                                      "lookup": lk_json(lookup), "how": xr.choice(["both", "both", "timespan", "time_shift"])},
+                  size)
+        if "#" in s:
+            extra("default-error", {"string": s, "timespan": ts, "time_shift": shift, "lookup": lk_json(lookup)}, size)
         # ---- oracle -----------------------------------------------------------------
         doc = items if items is not None else scan_documented(s)
         if doc is None:
@@ -410,7 +649,6 @@ def run(chk):
                                           "the opening parenthesis; int()/float()/str then lookup"), size=size)
             elif len(exp) >= 2:
                 nontrivial.add((s.replace(" ", ""), rs, ts, shift))
-
     # ---- structured diagrams ---------------------------------------------------------
     for _ in range(n_struct):
         after = rng.random() < 0.25
@@ -469,6 +707,24 @@ def run(chk):
                                           "messages due strictly after the subscription"), size=len(s))
             elif len(expd) >= 2:
                 nontrivial.add((s.replace(" ", ""), api, ts))
+        # ---- oracle-only delivery families -----------------------------------------------
+        lj = lk_json(lookup)
+        t1 = xr.choice([0.0, 1.0, 200.0])
+        v = extra("cold-direct", {"string": s, "timespan": ts, "timespan_as": xr.choice(["number", "timedelta"]),
+                                  "lookup": lj, "api": xr.choice(["cold", "from_marbles"]),
+                                  "sched_via": xr.choice(["factory", "subscribe"]),
+                                  "subscribe_at": [t1, t1 + xr.choice([0.5, 2.0, 7.0, 500.0])]}, len(s))
+        due = xr.choice([0, 50, 150.0, 199.5, 0.5])
+        das = xr.choice(["number", "timedelta", "datetime", "default"])
+        (pres, _) = run_parse(s, float(ts), 0.0 if das == "default" else float(due), lookup, True)
+        observers = gen_hot_observers(xr, [t for t, _, _ in pres[1]] if pres[0] == "ok" else [])
+        hd = {"string": s, "timespan": ts, "timespan_as": xr.choice(["number", "timedelta"]), "duetime": due,
+              "duetime_as": das, "lookup": lj, "observers": observers}
+        v = extra("hot-direct", hd, len(s) + len(observers) + (0 if doc is not None else 10))   # prefer documented syntax
+        hist["hot_duetime_" + das] = hist.get("hot_duetime_" + das, 0) + 1
+        if not v and pres[0] == "ok" and len(pres[1]) >= 2:
+            hist["hot_reentrant_dispose"] = hist.get("hot_reentrant_dispose", 0) + any("dispose_in_on_next" in o for o in observers)
+            nontrivial.add((s.replace(" ", ""), "hot-direct", ts, due, das))
 
     bad, logs = lib.correspondence("C38", "marbles", IMPORTS, "(nat * pcase) * (perr + list (pytime * notif pyval))",
                                    "model", "out_eqb", gal, prelude=PRELUDE, shard=500)
@@ -489,7 +745,15 @@ def run(chk):
                        "strings of length 0-10 over \"-|#(), ab1.2\" (unbalanced parentheses, commas outside groups); "
                        "x raise_stopped x timespan in {1,2,10,1.0,0.1,0.5,3.0,0.3} x time_shift in {0,200,5,0.0,0.25,"
                        "200.0,1e-3} x random lookups (str/int/float keys); delivery: from_marbles(scheduler=TestScheduler), "
-                       "testing.marbles cold() and hot().  non-trivial = distinct (space-free string, parameters) inside "
+                       "testing.marbles cold() and hot().  Oracle only: (a) half of the parse cases again with timespan "
+                       "and/or time_shift as timedelta (also 172800.5 s / 90000 s timespans, negative and 1.5-day shifts) "
+                       "== the same seconds as numbers; (b) every delivery case through public reactivex.cold / from_marbles "
+                       "on a TestScheduler (number or timedelta timespan, scheduler via factory or subscribe()), one "
+                       "observable subscribed at two instants; (c) every delivery case through public reactivex.hot on a "
+                       "TestScheduler, duetime in {0,50,150,199.5,0.5} as number/timedelta/datetime/default, 4-5 observers "
+                       "(from the start, joining mid-diagram, leaving mid-diagram, after the end, disposing itself inside "
+                       "its k-th on_next), each judged on the window it was subscribed in; (d) every parse case containing '#' "
+                       "again without the error argument (documented default Exception('error')).  non-trivial = distinct (space-free string, parameters) inside "
                        "the documented syntax on which the implementation equals the direct reading and at least two "
                        "notifications are produced")
     chk.cov["input_distribution"] = hist
@@ -499,8 +763,10 @@ def run(chk):
                        "Python int()/float() on ASCII text (floats exact for < 2^53 significands and |exp10| <= 22) and "
                        "of the virtual-time scheduler's (due time, insertion order) -- tied by this run's correspondence",
                        "PrimFloat (kernel binary64) for float timestamps in the correspondence"],
-        assumptions=["ASCII strings without whitespace other than ' '; timedelta timespans are converted by "
-                     "total_seconds() (C36) and not exercised here",
+        assumptions=["ASCII strings without whitespace other than ' '; timedelta timespans / shifts / duetimes only "
+                     "metamorphically (same result as the number of seconds), with values that are whole microseconds",
+                     "hot() with several observers: a message due exactly at an observer's subscription or disposal "
+                     "instant may or may not reach it; a subscriber arriving after the terminal may or may not be told",
                      "strings with unbalanced parentheses are outside the documented syntax: the model follows the code "
                      "(the parenthesis is dropped without advancing time, Example C38_unbalanced_parenthesis_quirk), the "
                      "oracle demands nothing there",
@@ -510,6 +776,14 @@ def run(chk):
 
 def replay(chk, path):
     d = json.load(open(path))
+    if d.get("family") in FAMILIES:
+        lib.import_repo()
+        v = FAMILIES[d["family"]]({k: x for k, x in d.items() if k != "what"})
+        print(json.dumps({"case": {k: x for k, x in d.items() if k != "what"}, "oracle": v or "holds"}, indent=1))
+        if v:
+            print(f"VIOLATION property=C38 replay={path}")
+            return 1
+        return 0
     if "string" not in d:
         print(json.dumps(d, indent=1)[:4000])
         return 1
